@@ -41,6 +41,9 @@ EXPECT_MISSED = {
     "C17-f": "Easter computus: the epact correction rewritten with one exception dropped (1981, 2076) — a numerical result",
     "C17-g": "bias constant 384 -> 34 in the business-day arithmetic (both are -1 mod 5 and 7; the bias also keeps the sum non-negative) — value arithmetic",
     "C18-g": "ilog2_ceil via __builtin_clz returns one less than the table version (bit length vs floor log2) — a numerical result of a bit-trick function",
+    "C01-k": "MLY_TRIES bail-out after a leap year of fruitless minutes in the minutely filler — whether a rule's next match lies beyond the bound is a numerical question (the yearly and monthly fillers have such bounds in the unchanged tree)",
+    "C17-k": "the look-back year decision replaced by a day estimate `dvalue + bvalue*7/5 > 0` — which shifts it misjudges is value-level",
+    "C18-k": "ilog2_ceil via __builtin_clz (again, independently of C18-g) — a numerical result of a bit-trick function",
 }
 
 
